@@ -355,6 +355,31 @@ def flush_rule(rep, prog, cfg):
         rep.check(fin_bbs and not in_loop and fld_bbs and len(field_in_loop) == len(fld_bbs), "C14.flush",
                   "%s/%s shape" % (cfg, short), b.loc(b.span),
                   "expected field() inside the loop over the frame and finish() once after it")
+        # every field the frame yields is offered to the builder, and every song the builder completes is pushed: within one turn
+        # of the loop there is no way back to the iterator that avoids field() (a `continue` / filter in front of it), and none
+        # from a completed song (the Some arm of field()'s result) that avoids the push
+        IT_NEXT = "core::iter::traits::iterator::Iterator::next"
+        nexts = [bb for bb, t in b.calls() if IT_NEXT in callee_names(t) and any(bb in l for l in g.loops)]
+        if len(nexts) == 1 and len(fld_bbs) == 1:
+            nb = nexts[0]
+            swn = [x for x in tables.discr_switches(b) if x["place"]["l"] == b.blocks[nb]["t"]["dest"]["l"] and not x["place"]["p"]]
+            some_t = swn[0]["arms"].get("Some", swn[0]["otherwise"]) if swn else None
+            bypass = some_t is not None and nb in reach(g.succs, [some_t], avoid=fld_bbs)
+            rep.check(some_t is not None and not bypass, "C14.flush", "%s/%s every field offered to the builder" % (cfg, short), b.loc(b.blocks[nb]["ts"]),
+                      "the loop over the frame can move on to the next field without handing the current one to SongBuilder::field (a filter or "
+                      "`continue` in front of it): fields the server sent would be missing from the decoded songs")
+            # the Some(song) result
+            fb_ = fld_bbs[0]
+            res_l = b.blocks[fb_]["t"]["dest"]["l"]
+            derived, _u = fl.forward([res_l], through_call=lambda t2, ai: identity_through(t2) is not None)
+            sws = [x for x in tables.discr_switches(b) if x["place"]["l"] in derived and x["adt"].endswith("option::Option") and "Some" in x["arms"]]
+            push_bbs = [bb for bb, t in pushes if any(bb in l for l in g.loops)]
+            if sws and push_bbs:
+                lost = any(nb in reach(g.succs, [x["arms"]["Some"]], avoid=push_bbs) for x in sws)
+                rep.check(not lost, "C14.flush", "%s/%s every completed song pushed" % (cfg, short), b.loc(b.blocks[fb_]["ts"]),
+                          "a song completed by SongBuilder::field can be dropped: the next turn of the loop is reachable from the Some arm without passing the push")
+        else:
+            rep.fail("C14.flush", "%s/%s loop shape" % (cfg, short), b.loc(b.span), "expected one iterator next() and one field() call in the loop over the frame")
         # returned vector is the one pushed to
         leaves, _ = fl.sources([0], through_call=identity_through)
         push_dsts = set()
